@@ -190,6 +190,8 @@ func (l *Listener) HotRestart(epoch uint64) error {
 
 	for session := range l.sessions.data {
 		if !session.handshakeDone {
+			// no watcher is started on this path: do not stay in the hot restart state
+			l.state = defaultState
 			return ErrInHandshakeStage
 		}
 		if session.state != defaultState {
